@@ -5,6 +5,7 @@ import FastgoModel.Reader.Replay
 import FastgoModel.Writer.Tokens
 import FastgoModel.Proofs.HuffInstance
 import FastgoModel.Proofs.WriterWrap
+import FastgoModel.Proofs.BlockFrame
 /-
   Line-protocol driver of the executable models (`lake build fgmodel`).
   One case per input line, one answer line per case. Bytes travel as lowercase hex.
@@ -176,6 +177,33 @@ def answerG (window pos stop : Nat) (buf : List UInt8) (toks : List RTok) : Stri
   else if stop > b.size then "bad: stop beyond the buffer"
   else firstBadTok window b stop pos 0 toks
 
+
+/-! ### E: one recorded call of a real block encoder, checked by `checkEnc` (Proofs/BlockFrame.lean) -/
+
+def parseBits (s : String) : Option Bits :=
+  if s = "-" then some []
+  else if s.toList.all (fun c => c = '0' || c = '1') then some (s.toList.map (· = '1')) else none
+
+def answerE (pos : Nat) (carry : Bits) (out : List UInt8) (carry' : Bits) (final : Bool) (h x : List UInt8) : String :=
+  let ha := h.toArray
+  if checkEnc .strict pos carry out carry' final ha x then "ok"
+  else
+    let all := bytesToBits out ++ carry'
+    if all.take carry.length != carry then "bad: the bits handed out do not begin with the old carry"
+    else
+      let B := all.drop carry.length
+      match inflateBlock .strict pos B ha {} with
+      | .needMore o _ _ _ => s!"bad: the block's bits end before the block does (decoded {o.size - ha.size} of {x.length} bytes)"
+      | .corrupt o _ _ => s!"bad: the specification inflater rejects the block after {o.size - ha.size} of {x.length} bytes"
+      | .next f o r _ =>
+        if f != final then s!"bad: BFINAL is {f}, expected {final}"
+        else if o != ha ++ x.toArray then s!"bad: the block decodes to other bytes than the data it stands for (n={o.size - ha.size}, expected {x.length})"
+        else if !final && !r.isEmpty then s!"bad: {r.length} bits after the end-of-block code of a non-final block"
+        else if final && (r.length ≥ 8 || r.any id) then s!"bad: final block followed by {r.length} bits that are not byte padding"
+        else if final && !carry'.isEmpty then "bad: bits left in the bit buffer after the final block"
+        else if !blockCodesPF .strict B then "bad: a declared Huffman code is not prefix-free"
+        else "bad: checkEnc rejects"
+
 /-! ### containers and checksums -/
 
 def hexL (bs : List UInt8) : String := if bs.isEmpty then "-" else toHex bs.toArray
@@ -286,6 +314,10 @@ def step (line : String) : String :=
       let ts := (if toks = "-" then [] else toks.splitOn ",").map parseTok
       if ts.any Option.isNone then "bad-token" else answerG (parseNat! window) (parseNat! pos) (parseNat! stop) b (ts.filterMap id)
     | none => "bad-hex"
+  | ["E", pos, carry, out, carry', final, h, x] =>
+    match parseBits carry, parseHex out, parseBits carry', parseHex h, parseHex x with
+    | some c, some o, some c', some hh, some xx => answerE (parseNat! pos) c o c' (final = "1") hh xx
+    | _, _, _, _, _ => "bad-hex"
   | ["R", size, chunks, reads, evs] =>
     let cs := (if chunks = "-" then [] else chunks.splitOn ";").filterMap parseChunk
     let rs := (reads.splitOn ",").map parseNat!
